@@ -91,6 +91,9 @@ def status_check(ex, prop=ID, sub=None):
     if not finite_result(r):
         out.append(V(prop, "nonfinite", "status %s with non-finite x, y or d" % st, sub, ctx))
         return out
+    if np.shape(r.x) != um.xl.shape or np.shape(r.y) != um.cl.shape:
+        out.append(V(prop, "bounds", "status %s but the returned x / y have shapes %s / %s (problem: %d variables, %d rows)" % (st, np.shape(r.x), np.shape(r.y), um.n, um.m), sub, ctx))
+        return out
     if um.in_bounds(ex.x0) and ((r.x < um.xl).any() or (r.x > um.xu).any()):
         out.append(V(prop, "bounds", "status %s but returned x violates the variable bounds (the start satisfied them)" % st, sub, ctx))
     lim = prm.iteration_limit
